@@ -32,6 +32,11 @@ def run(ctx):
     r93(ctx, prog)
     r95(ctx, prog)
     r96(ctx, prog, ())
+    # R9.6 "the function the context currently defines for a name": set_function binds the name to the function it was given, replacing
+    # an earlier binding, and clear_functions / clear remove them all - the C04 R4.6 semantics of the function map, reported here
+    from rules.c04 import r46
+    from rules.c05 import _Renamed
+    r46(_Renamed(ctx, 'R9.6'), prog)
     if ctx.tier == 'thorough':
         pf = ctx.prog(features=('rand', 'regex', 'serde'))
         r96(ctx, pf, ('rand', 'regex', 'serde'))
